@@ -1350,6 +1350,12 @@ func (w *responseWriter) reportError(err error) {
 		end.err = connect.NewError(connect.CodeUnknown, err)
 		end.httpCode = http.StatusBadGateway
 	}
+	if !w.endWritten {
+		// Trailers the handler has set so far belong to the response it was
+		// producing. The error replaces that response, so they must not
+		// travel with it (as stray HTTP trailers, for most clients).
+		httpExtractTrailers(w.Header(), nil)
+	}
 	w.reportEnd(&end)
 }
 
